@@ -53,6 +53,9 @@ static inline void *vp_exact(uint64_t bytes) {
   return p;
 }
 
+/* ST::buffer<T>::local_length for an element of sz bytes under the rendered configuration */
+#define LOCAL_LEN(sz) ((VP_SSO * (sz)) > VP_SSO_SIZE ? VP_SSO_SIZE / (sz) : VP_SSO)
+
 #define VP_EXC(kind) (vp_exc_pending && vp_exc_kind == (kind))
 
 /* ------------------------------------------------------------------------------------------
